@@ -17,6 +17,8 @@ import (
 	"crypto/x509"
 	"fmt"
 	"math/big"
+	"os"
+	"path/filepath"
 
 	"github.com/libp2p/go-libp2p/core/crypto"
 	"github.com/libp2p/go-libp2p/core/peer"
@@ -57,6 +59,9 @@ func genPrime(r *vlib.Rand, bits int) *big.Int {
 		b[0] |= 0xC0 // top two bits set: product of two such primes has exactly 2*bits bits
 		b[len(b)-1] |= 1
 		p := new(big.Int).SetBytes(b)
+		if !passesSieve(p) {
+			continue
+		}
 		if p.ProbablyPrime(20) {
 			return p
 		}
@@ -217,4 +222,67 @@ func MarshalPriv(k crypto.PrivKey) []byte {
 		panic(err)
 	}
 	return b
+}
+
+// BigRSA returns the deterministic RSA key of the given size for this stream (label
+// "rsa-<bits>" of r).  Large keys take seconds to find, so the marshalled key is cached
+// under dir (file name = bits and a fingerprint of the stream state); a cached key is
+// exactly the key the stream would produce.
+func BigRSA(r *vlib.Rand, bits int, dir string) (crypto.PrivKey, error) {
+	rr := r.Fork(fmt.Sprintf("rsa-%d", bits))
+	fp := rr.Fork("fingerprint").Uint64()
+	path := ""
+	if dir != "" {
+		path = filepath.Join(dir, fmt.Sprintf("rsa-%d-%016x.key", bits, fp))
+		if b, err := os.ReadFile(path); err == nil {
+			if k, err := crypto.UnmarshalPrivateKey(b); err == nil {
+				return k, nil
+			}
+		}
+	}
+	k, err := genRSA(rr, bits)
+	if err != nil {
+		return nil, err
+	}
+	if path != "" {
+		if b, err := crypto.MarshalPrivateKey(k); err == nil {
+			_ = os.MkdirAll(dir, 0o755)
+			tmp := fmt.Sprintf("%s.%d", path, os.Getpid())
+			if os.WriteFile(tmp, b, 0o600) == nil {
+				_ = os.Rename(tmp, path)
+			}
+		}
+	}
+	return k, nil
+}
+
+var smallPrimes = func() []uint64 {
+	var ps []uint64
+	for n := uint64(3); n < 2000; n += 2 {
+		ok := true
+		for _, p := range ps {
+			if p*p > n {
+				break
+			}
+			if n%p == 0 {
+				ok = false
+				break
+			}
+		}
+		if ok {
+			ps = append(ps, n)
+		}
+	}
+	return ps
+}()
+
+func passesSieve(p *big.Int) bool {
+	var m big.Int
+	for _, q := range smallPrimes {
+		var d big.Int
+		if m.Mod(p, d.SetUint64(q)).Sign() == 0 {
+			return false
+		}
+	}
+	return true
 }
